@@ -24,9 +24,9 @@ type zzResult struct {
 	Signature  []byte `json:"signature"`
 }
 
-func (r *zzResult) GetRound() uint64       { return r.Round }
-func (r *zzResult) GetRandomness() []byte  { return r.Randomness }
-func (r *zzResult) GetSignature() []byte   { return r.Signature }
+func (r *zzResult) GetRound() uint64      { return r.Round }
+func (r *zzResult) GetRandomness() []byte { return r.Randomness }
+func (r *zzResult) GetSignature() []byte  { return r.Signature }
 
 // zzNodeClient stands for the node behind the HTTP relay: Get(r) answers round r, Watch streams what the
 // harness pushes.
@@ -108,19 +108,31 @@ func ZZ_C19_httpRouting() {
 	clB := &zzNodeClient{stream: make(chan client2.Result, 1), info: zzInfo("beta"), tag: 0xb0}
 	hashA, hashB := []byte{0xaa, 0x01}, []byte{0xbb, 0x02}
 	bhA := h.RegisterNewBeaconHandler(clA, fmt.Sprintf("%x", hashA))
-	h.RegisterDefaultBeaconHandler(bhA)
 	bhB := h.RegisterNewBeaconHandler(clB, fmt.Sprintf("%x", hashB))
-	live := map[string]bool{"a": true, "b": true, "default": true}
-	switch zz.Choose("history", 4) {
-	case 1:
-		h.RemoveBeaconHandler(fmt.Sprintf("%x", hashB))
-		live["b"] = false
-	case 2:
-		h.RemoveBeaconHandler(fmt.Sprintf("%x", hashA))
-		live["a"] = false
-	case 3:
-		h.RemoveBeaconHandler("default")
-		live["default"] = false
+	// reference table: which handler each key resolves to (nil = refused)
+	live := map[string]*BeaconHandler{"a": bhA, "b": bhB, "default": nil}
+	if zz.Bool("default_chain_registered") { // a daemon need not run a chain with the default id
+		h.RegisterDefaultBeaconHandler(bhA)
+		live["default"] = bhA
+	}
+	for i := 0; i < zz.Param("history", 2); i++ {
+		switch zz.Choose("history", 6) {
+		case 1:
+			h.RemoveBeaconHandler(fmt.Sprintf("%x", hashB))
+			live["b"] = nil
+		case 2:
+			h.RemoveBeaconHandler(fmt.Sprintf("%x", hashA))
+			live["a"] = nil
+		case 3:
+			h.RemoveBeaconHandler("default")
+			live["default"] = nil
+		case 4: // chain A is (re)loaded: reshare, stop + load
+			bhA = h.RegisterNewBeaconHandler(clA, fmt.Sprintf("%x", hashA))
+			live["a"] = bhA
+		case 5:
+			bhB = h.RegisterNewBeaconHandler(clB, fmt.Sprintf("%x", hashB))
+			live["b"] = bhB
+		}
 	}
 	var req []byte
 	kind := zz.Choose("request.hash", 5) // absent, A, B, unknown symbolic, one symbolic byte
@@ -138,11 +150,11 @@ func ZZ_C19_httpRouting() {
 	bh, err := h.getBeaconHandler(req)
 	switch kind {
 	case 0:
-		zz.Assert("no_hash_goes_to_default_only", (err == nil) == live["default"] && (err != nil || bh == bhA))
+		zz.Assert("no_hash_goes_to_default_only", (err == nil) == (live["default"] != nil) && (err != nil || bh == live["default"]))
 	case 1:
-		zz.Assert("hash_a_serves_chain_a_only", (err == nil) == live["a"] && (err != nil || bh == bhA))
+		zz.Assert("hash_a_serves_chain_a_only", (err == nil) == (live["a"] != nil) && (err != nil || bh == live["a"]))
 	case 2:
-		zz.Assert("hash_b_serves_chain_b_only", (err == nil) == live["b"] && (err != nil || bh == bhB))
+		zz.Assert("hash_b_serves_chain_b_only", (err == nil) == (live["b"] != nil) && (err != nil || bh == live["b"]))
 	default:
 		zz.Assert("unknown_hash_is_refused", err != nil)
 	}
